@@ -5,15 +5,22 @@
         call = read | write | transform | create | edit | open | mutex | openfile
         arg  = data (write) | new contents or FAIL (transform) | decimal flags (openfile) | -
         file = initial contents, or "absent"
+        file = "fifo" | "chardev": a non-regular file (attribute model, LockedFileA.v)
+     opsattr <call> <arg> <file> <regular 0|1> <may-read 0|1> <may-write 0|1>
+                                          -> same, with the inode attributes as the caller sees them
      fault <old> <new|FAIL> <k> <fail|short> <n>
                                           -> same, for Transform on a file holding <old> with
                                              the k-th visible operation (0-based) failing
      faultcall <call> <arg> <file> <k> <fail|short> <n>
                                           -> same for any call (createwrite / editwrite <data>:
                                              Create resp. Edit, then Write(data), then Close)
-     locktab <n> (g:<E|S>:<ofd>:<ino> | u:<ofd>:<ino>)*n
+     locktab <n> {g:<E|S>:<ofd>:<ino> | u:<ofd>:<ino>}..
                                           -> ok <grants> | reject <index> <conflicting holders>
                                              (can_grant / drop of the model's flock table)
+     replay <ninodes> <file>.. <nclients> {<ino> <flags> <ok|err> <nops> <op>..}.. <nevents> {<client>:<kind>}..
+                                          -> ok <final file>..  |  mismatch <event> <text>
+        an observed history replayed through the interleaved semantics (init_state/exec):
+        op = r:<data> | p:<off>:<data> | w:<data> | t:<size>; kind = open | flock<arg> | io | close
      mutexfacts                           -> lockpanic <msg>|lockruns -  atpanic <msg>|atok -
      mutexstring <path>                   -> <hex of Mutex.String()>
      spec <call> <arg> <reg>              -> <outcome> <new reg>   (call_spec: the sequential
@@ -62,6 +69,11 @@ let show (tr, out, o) =
 let run_call c plan file =
   let ((tr, out), o) = run_seq O O (prog_of_call c) plan O (os_with file) in
   (tr, out, o)
+(* with inode attributes; a non-regular file is given some contents the model never looks at *)
+let run_call_a a c file =
+  let ((tr, out), o) = run_seq_a a O O (prog_of_call_a a c) no_faults O (os_with file) in
+  (tr, out, o)
+let special = { a_regular = false; a_can_read = true; a_can_write = true }
 (* global index of the k-th visible op of the fault-free run *)
 let global_index tr k =
   let rec go i seen = function
@@ -70,12 +82,101 @@ let global_index tr k =
         if is_mark op then go (i + 1) seen rest
         else if seen = k then Some i else go (i + 1) (seen + 1) rest in
   go 0 0 tr
+(* ---- replay of an observed multi-process history through the interleaved model (exec) *)
+let rec body_of_ops = function
+  | [] -> Ret ResOk
+  | tok :: rest ->
+      let next r = if r = ROk then body_of_ops rest else Ret ResErr in
+      (match String.split_on_char ':' tok with
+       | ["r"; d] ->
+           let want = bytes_of_hex d in
+           Do (OReadAll, fun r -> match r with
+             | RData m -> if m = want then body_of_ops rest else Ret (ResData m)
+             | _ -> Ret ResErr)
+       | ["p"; off; d] -> Do (OPWrite (nat_of_int (int_of_string off), bytes_of_hex d), next)
+       | ["w"; d] -> Do (OWrite (bytes_of_hex d), next)
+       | ["t"; n] -> Do (OFtruncate (nat_of_int (int_of_string n)), next)
+       | _ -> failwith ("bad op " ^ tok))
+let rec take n l acc = if n = 0 then (List.rev acc, l) else
+  match l with x :: r -> take (n - 1) r (x :: acc) | [] -> failwith "short request"
+let op_kind = function
+  | OOpen _ -> "open" | OFlock h -> "flock" ^ string_of_int (int_of_n h) | OClose -> "close"
+  | OMark _ -> "mark" | _ -> "io"
+let replay toks =
+  let ni = int_of_string (List.hd toks) in
+  let (inits, toks) = take ni (List.tl toks) [] in
+  let inits = Array.of_list (List.map file_of inits) in
+  let nc = int_of_string (List.hd toks) in
+  let toks = ref (List.tl toks) in
+  let clients = Array.init nc (fun _ ->
+    match !toks with
+    | ino :: flags :: expect :: nops :: r ->
+        let (ops, r) = take (int_of_string nops) r [] in
+        toks := r;
+        (int_of_string ino, expect,
+         { c_ino = nat_of_int (int_of_string ino);
+           c_call = COpenFile (n_of_int (int_of_string flags), body_of_ops ops) })
+    | _ -> failwith "short client") in
+  let idle = { c_ino = O; c_call = CMutex } in
+  let cfg c = let i = int_of_nat c in if i < nc then (match clients.(i) with (_, _, cl) -> cl) else idle in
+  let f i = let j = int_of_nat i in if j < ni then inits.(j) else None in
+  let ne = int_of_string (List.hd !toks) in
+  let (events, _) = take ne (List.tl !toks) [] in
+  let s = ref (init_state cfg f) in
+  let result = ref "" in
+  (try
+    List.iteri (fun idx ev ->
+      match String.split_on_char ':' ev with
+      | [c; kind] ->
+          let ci = int_of_string c in
+          let cn = nat_of_int ci in
+          let rec step () =
+            match !s.progs cn with
+            | Ret _ -> result := Printf.sprintf "mismatch %d client %d has already returned in the model, observed %s" idx ci kind; raise Exit
+            | Do (OMark _, _) -> s := exec cfg !s (EvRun cn); step ()
+            | Do (o, _) | Retry (o, _) ->
+                if op_kind o <> kind then begin
+                  result := Printf.sprintf "mismatch %d client %d: observed %s, the model's next operation is %s" idx ci kind (op_kind o); raise Exit end;
+                let s' = exec cfg !s (EvRun cn) in
+                if s'.progs == !s.progs then begin
+                  result := Printf.sprintf "mismatch %d client %d: observed %s completed, the model blocks" idx ci kind; raise Exit end;
+                s := s' in
+          step ()
+      | _ -> failwith "bad event") events;
+    (* let every client run its trailing ghost steps, then look at the results *)
+    Array.iteri (fun ci (_, expect, _) ->
+      let cn = nat_of_int ci in
+      let rec fin n = match !s.progs cn with
+        | Do (OMark _, _) when n > 0 -> s := exec cfg !s (EvRun cn); fin (n - 1)
+        | _ -> () in
+      fin 4;
+      match !s.progs cn with
+      | Ret r ->
+          let got = (match r with ResOk -> "ok" | ResErr -> "err" | ResData m -> "readmismatch:" ^ hex_of_bytes m) in
+          if got <> expect && !result = "" then
+            result := Printf.sprintf "mismatch -1 client %d: observed outcome %s, model %s" ci expect got
+      | _ -> if !result = "" then result := Printf.sprintf "mismatch -1 client %d has not finished in the model" ci) clients
+  with Exit -> ());
+  if !result <> "" then !result else
+  "ok " ^ String.concat " " (List.init ni (fun i -> file_s (!s.st_os.files (nat_of_int i))))
+
 let () = serve (function
+  | "replay" :: toks -> replay toks
   | ["mode"; f] ->
       let fl = n_of_int (int_of_string f) in
       (match lock_mode_of_flags fl with Some LEx -> "EX" | Some LSh -> "SH" | None -> "NONE") ^ " " ^
       string_of_int (int_of_n (lock_arg_of_flags fl)) ^ " " ^
       string_of_int (int_of_n (strip fl openfile_strip_mask))
+  | ["ops"; name; arg; ("fifo" | "chardev" as kind)] ->
+      let (tr, out, o) = run_call_a special (call_of name arg) (Some []) in
+      let s = show (tr, out, o) in
+      (* the file's "contents" are not observable: print the kind instead *)
+      (match String.split_on_char ' ' s with
+       | o1 :: _ :: rest -> String.concat " " (o1 :: kind :: rest)
+       | _ -> s)
+  | ["opsattr"; name; arg; file; reg; rd; wr] ->
+      let a = { a_regular = (reg = "1"); a_can_read = (rd = "1"); a_can_write = (wr = "1") } in
+      show (run_call_a a (call_of name arg) (file_of file))
   | ["ops"; name; arg; file] -> show (run_call (call_of name arg) no_faults (file_of file))
   | ["fault"; old; nw; k; kind; n] ->
       let c = call_of "transform" nw in
